@@ -5,5 +5,6 @@ pub mod c08;
 pub mod c11;
 pub mod c11_core;
 pub mod c17;
+pub mod c19;
 pub mod c20;
 pub mod tree;
